@@ -40,6 +40,12 @@ def handlers : List (String × Handler) := [
       | some v, some w => "ok " ++ b (validL (infer v) w)
       | _, _ => "err args"
     | _ => "err args"),
+  -- infer.csv (xHEADER …) (xCELL …): the schema inferred from a CSV header + first row
+  ("infer.csv", fun
+    | [.list hs, .list cs] => match hs.mapM SX.str?, cs.mapM SX.str? with
+      | some hs, some cs => "ok " ++ encNode (infer (csvSample hs cs))
+      | _, _ => "err args"
+    | _ => "err args"),
   ("infer.covers", fun
     | [v, w] => match json? v, json? w with
       | some v, some w => "ok " ++ b (covers (infer v) w)
